@@ -311,6 +311,27 @@ def grant_guard(cx):
     cx.check(n >= 1, "floor", "at least one granting vote response template exists")
 
 
+@obligation("MSG.heartbeat_leader_only", ["C20", "C10", "C16"], floor=2, kind="who-may-call + guard",
+            why="a heartbeat tells its receiver who leads the term: one sent by a node that is not the leader resets timers, installs a wrong leader id and lets a forwarded request loop until send() hits its fatal!")
+def heartbeat_leader_only(cx):
+    from .vote import _state_in, STATE
+    n = 0
+    for name in ("Raft::bcast_heartbeat", "Raft::bcast_heartbeat_with_ctx"):
+        f = cx.fn(name)
+        for c in callers_of(cx, f):
+            if c.fn.key == cx.fn("Raft::bcast_heartbeat").key and name == "Raft::bcast_heartbeat_with_ctx":
+                continue   # the wrapper itself: decided at its own callers
+            def leader(l):
+                return l[0] == "in" and is_f(l[1], STATE) and l[2] == frozenset(["Leader"])
+            g = cx.pg(c.fn)
+            ok = g.guarded(c.at, lambda lits: any(leader(l) for l in lits))[0]
+            if not ok and c.fn.vis != "Public":
+                ok = _state_in(cx, c, {"Leader"}, depth=2)
+            cx.check(ok, cx.site_key(c, "call:" + fn_name(f)), "heartbeats are broadcast only while state == Leader (own guard; for a private handler, the dispatcher's)", c)
+            n += 1
+    cx.check(n >= 2, "floor", "heartbeat broadcast sites were found")
+
+
 @obligation("MSG.vote_response_commit", ["C04", "C01", "C05"], floor=1, kind="message template",
             why="a (pre)candidate fast-forwards its commit index to the (commit, commit_term) pair a vote response carries: anything but the voter's own commit point there lets a non-leader commit what no leader committed")
 def vote_response_commit(cx):
